@@ -206,6 +206,7 @@ fn stream_one<H: HK>(rep: &mut Report, total: u64, tails: &[usize], jh_via_compr
     match r {
         Err(p) => rep.violation(&format!("c17:{}:stream:panic:{}", H::NAME, panic_class(&p)), p, replay),
         Ok(v) => {
+            rep.sample(replay.clone());
             for (t, got, want) in v {
                 rep.evaluations += 1;
                 rep.nontrivial += 1;
